@@ -4,6 +4,9 @@ open Py Lean
 namespace Driver.D_eu_vat
 def handle (fn : String) (args : List Json) : String :=
   match fn with
+  | "_get_cc_module" => match args with
+    | [a0] => (do let x0 ← Wire.decStr a0; pure (Wire.respondWith (Wire.encOpt Wire.encModule) (Gen.eu_vat._get_cc_module x0)) : Option String).getD "badargs"
+    | _ => "badargs"
   | "compact" => match args with
     | [a0] => (do let x0 ← Wire.decStr a0; pure (Wire.respondWith Wire.encStr (Gen.eu_vat.compact x0)) : Option String).getD "badargs"
     | _ => "badargs"
@@ -15,6 +18,9 @@ def handle (fn : String) (args : List Json) : String :=
     | _ => "badargs"
   | "validate" => match args with
     | [a0] => (do let x0 ← Wire.decStr a0; pure (Wire.respondWith Wire.encStr (Gen.eu_vat.validate x0)) : Option String).getD "badargs"
+    | _ => "badargs"
+  | "_get_cc_module__warm" => match args with
+    | [a0, a1] => (do let x0 ← (Wire.decDict Wire.decStr (Wire.decOpt Wire.decModule)) a0; let x1 ← Wire.decStr a1; pure (Wire.respondWith (Wire.encT2 (Wire.encOpt Wire.encModule) (Wire.encDict Wire.encStr (Wire.encOpt Wire.encModule))) (Gen.eu_vat._get_cc_module__warm x0 x1)) : Option String).getD "badargs"
     | _ => "badargs"
   | _ => "nofunc"
 end Driver.D_eu_vat
